@@ -49,6 +49,8 @@ func checkC18(c *Ctx) {
 	c.Rule("C18.R10", "restart check against the running configuration: the baseline operand of the restart-required predicate is a parameter of the reload entry, and no call site binds it to a configuration freshly compiled from the file (unless that value is the one the runtime state is built from)")
 	checkRestartBaseline(c, "C18.R10")
 	entries := reloadEntries(p)
+	c.Rule("C18.R11", "a reload changes the running system only inside its commit critical section: every store into a field (or a map held in a field) of a struct type the runtime state can hold that is reachable from a reload entry executes with the write lock held or targets an object the reload itself created (allocated there, returned by a constructor, or handed in fresh by every caller) — nothing the running state already holds is re-configured in place before the swap")
+	checkReloadPreparesFreshObjects(c, "C18.R11", entries)
 	c.Floor("C18.R1", "reload_entry_functions", len(entries), 1)
 	for _, entry := range entries {
 		ename := "app." + entry.Name()
